@@ -39,9 +39,9 @@ CLAIMED = {
             "Trusts the reference model; ServiceDestroyed for all-events-only subscribers is left open; lock-step.",
             "model-based property testing", "5 C04"),
     "C05": ("bus", "exploration",
-            "Generated channel histories (all capacities incl. 0, low-water neighbourhood, u32::MAX) lock-step against a credit model: exactly-once in-order forwarding within the grant, announcements bounded by the grant, end state machine, single notification of the peer, overflow closes only the receiver, no credit deadlock at quiescence. Client-level Sender/Receiver schedules are covered by C06's channel programs.",
+            "Generated channel histories (all capacities incl. 0, low-water neighbourhood, u32::MAX) lock-step against a credit model: exactly-once in-order forwarding within the grant, announcements bounded by the grant, end state machine, single notification of the peer, overflow closes only the receiver, no credit deadlock at quiescence. Client level (second half of the same check, binary vapi): channel-heavy programs of real clients using the low-level Sender/Receiver under generated schedules, transports and capacities; the k-th item returned by next_item must be the k-th item accepted by start_send_item, and no producer/consumer/claim/close may be pending at quiescence.",
             "Announcement amounts are the broker's policy (only bounded); lock-step.",
-            "model-based property testing with credit invariants", "5 C05"),
+            "model-based property testing with credit invariants (raw peers vs. reference model) + stateful property testing of real Sender/Receiver programs under generated schedules with an in-order exactly-once oracle", "5 C05"),
     "C09": ("bus", "exploration",
             "Generated mixed histories in which a connection is ended at a generated step in five ways (Shutdown message, transport closed, shutdown_connection, run-future dropped, run-future dropped with a request still queued in the broker) plus a systematic enumeration of the fault step 0..24 x ways; after every step statistics gauges == model counts == verif-hooks snapshot sizes with no cross-reference inconsistency; at the end either everything is released and shutdown_idle completes, or shutdown() delivers one Shutdown per live connection and completes.",
             "Needs the read-only verif-hooks snapshot; the moment the broker notices a dropped task is read from the snapshot; a queued request of a dropped connection may or may not be processed.",
